@@ -6,8 +6,16 @@
 mod codec;
 mod curve;
 mod curveprop;
+mod dump;
+mod events;
 mod frame;
+mod reader;
 mod util;
+mod writer;
+mod timing;
+mod hitobj;
+mod sections;
+mod whole;
 
 use std::io::{self, BufRead, Write};
 use std::panic::{self, AssertUnwindSafe};
@@ -48,14 +56,28 @@ fn main() {
 /// Each module answers the requests it knows (`None` = not mine).
 fn dispatch_impl(toks: &[&str]) -> String {
     None.or_else(|| frame::dispatch_impl(toks))
+        .or_else(|| reader::dispatch_impl(toks))
+        .or_else(|| writer::dispatch_impl(toks))
         .or_else(|| codec::dispatch_impl(toks))
         .or_else(|| curve::dispatch_impl(toks))
+        .or_else(|| timing::dispatch_impl(toks))
+        .or_else(|| sections::dispatch_impl(toks))
+        .or_else(|| hitobj::dispatch_impl(toks))
+        .or_else(|| whole::dispatch_impl(toks))
+        .or_else(|| events::dispatch_impl(toks))
         .unwrap_or_else(|| "bad-request".to_owned())
 }
 
 fn dispatch_prop(toks: &[&str]) -> String {
     None.or_else(|| frame::dispatch_prop(toks))
+        .or_else(|| reader::dispatch_prop(toks))
+        .or_else(|| writer::dispatch_prop(toks))
         .or_else(|| codec::dispatch_prop(toks))
         .or_else(|| curve::dispatch_prop(toks))
+        .or_else(|| timing::dispatch_prop(toks))
+        .or_else(|| sections::dispatch_prop(toks))
+        .or_else(|| hitobj::dispatch_prop(toks))
+        .or_else(|| whole::dispatch_prop(toks))
+        .or_else(|| events::dispatch_prop(toks))
         .unwrap_or_else(|| "SKIP no-oracle".to_owned())
 }
